@@ -28,6 +28,16 @@ func ParseQuotedString(arg string) string {
 	return arg
 }
 
+// NormalizeMailboxName maps every case variant of INBOX to "INBOX" (RFC 3501
+// section 5.1: the name INBOX is case-insensitive); all other names are
+// case-sensitive and returned unchanged.
+func NormalizeMailboxName(name string) string {
+	if strings.EqualFold(name, "INBOX") {
+		return "INBOX"
+	}
+	return name
+}
+
 // QuoteString returns s as an IMAP quoted string (RFC 3501 section 4.3):
 // backslash and double quote are escaped, so that a mailbox name containing
 // them still reads back as one string.
